@@ -114,7 +114,22 @@ func init() {
 			return setBig(a[0], f(bigOf(a[1], name), bigOf(a[2], name)))
 		})
 	}
-	bin("Sub", ISub)
+	_ = bin
+	reg("(*math/big.Int).Sub", func(fr *frame, fn *ssa.Function, a []Value) Value {
+		x, y := bigRaw(a[1], "Sub"), bigRaw(a[2], "Sub")
+		if x.S.K == KBV || y.S.K == KBV {
+			// magnitudes held as bit-vectors: stay in that theory when the
+			// difference is known not to be negative on this path
+			if p, q, ok := bothBV(x, y); ok {
+				w := maxInt(p.S.W, q.S.W)
+				pe, qe := ZExt(p, w), ZExt(q, w)
+				if fr.p.branch(BVUle(qe, pe)) {
+					return setBig(a[0], BVSub(pe, qe))
+				}
+			}
+		}
+		return setBig(a[0], ISub(toIntSort(x), toIntSort(y)))
+	})
 	reg("(*math/big.Int).Add", func(fr *frame, fn *ssa.Function, a []Value) Value {
 		x, y := bigRaw(a[1], "Add"), bigRaw(a[2], "Add")
 		if p, q, ok := bothBV(x, y); ok {
